@@ -78,8 +78,8 @@ impl Profile {
 }
 
 pub fn gen_text(rng: &mut Rng) -> String {
-    const T: [&str; 9] = ["x", "y", " ", "é", "€", "𐍈", "\n", "\r\n", "-"];
-    const W: [usize; 9] = [10, 6, 4, 3, 3, 2, 6, 2, 2];
+    const T: [&str; 10] = ["x", "y", " ", "é", "€", "𐍈", "\n", "\r\n", "-", "\r"];
+    const W: [usize; 10] = [10, 6, 4, 3, 3, 2, 6, 2, 2, 1];
     let n = if rng.chance(12) { 0 } else { rng.range(1, 8) };
     let mut s = String::new();
     for _ in 0..n {
